@@ -25,7 +25,7 @@ type FSpec struct {
 }
 
 type ChainCfg struct {
-	Entry     string  `json:"entry"` // ServeHTTP | Dispatch | Nested | NestedFilter
+	Entry     string  `json:"entry"` // ServeHTTP | Dispatch | Mux | Nested | NestedFilter
 	Router    string  `json:"router"`
 	ContEnc   bool    `json:"container_encoding"`
 	RouteEnc  int     `json:"route_encoding"` // 0 unset, 1 true, 2 false
@@ -616,7 +616,10 @@ func genFilters(tp *sim.Tape, k chainKnobs, max int) []FSpec {
 
 func genChainCfg(tp *sim.Tape, k chainKnobs) *ChainCfg {
 	cfg := &ChainCfg{}
-	entries := []string{"ServeHTTP", "Dispatch"}
+	// "Mux": the container's ServeMux used directly as the http.Handler (a documented way to mount a
+	// container); routed requests then reach dispatch without ServeHTTP's compressing writer, and the
+	// Handle wrapper is the one that encodes plain-handler responses
+	entries := []string{"ServeHTTP", "Dispatch", "Mux"}
 	if k.nested {
 		entries = append(entries, "Nested", "NestedFilter")
 	}
@@ -786,6 +789,8 @@ func (cr *chainRun) serve(t *sim.Task, r *ChainReq, variant int) {
 		switch cr.env.cfg.Entry {
 		case "Dispatch":
 			c.Dispatch(rw, hr)
+		case "Mux":
+			c.ServeMux.ServeHTTP(rw, hr)
 		case "Nested", "NestedFilter":
 			outer.ServeHTTP(rw, hr)
 		default:
